@@ -1799,7 +1799,10 @@ func frameScenarios(rng *vrng, prop string) []frameCfg {
 				c.Cipher = frameCFBIndex(rot)
 			}
 		}
-		if prop == "C10sess" && i >= n-4 { // directed: a FEC group straddling an accepted, smaller MTU
+		if prop == "C09" && i >= n-2 { // the same directed script: what is on the wire afterwards still follows the layout and carries the stream
+			f := frameFecs[1+i%4]
+			c = frameCfg{Cipher: c.Cipher, D: f[0], P: f[1], MtuKind: 2, Pattern: 2, OOBMode: 0, Script: 1}
+		} else if prop == "C10sess" && i >= n-4 { // directed: a FEC group straddling an accepted, smaller MTU
 			f := frameFecs[1+i%4]
 			c = frameCfg{Cipher: c.Cipher, D: f[0], P: f[1], MtuKind: 2, Pattern: 2, OOBMode: 1, Script: 1}
 			if i%2 == 0 {
